@@ -1,7 +1,7 @@
 """C09 — loop-level theorems + correspondence of Solver.solve with a scripted step oracle."""
 from ..gen import Gen
 from ..unit import run_unit
-from .. import camp_props
+from .. import camp_props, common
 from ..units.loop import Loop
 
 PROP_FILES = ["props/C09.v"]
@@ -10,6 +10,7 @@ TECHNIQUE = "Coq proof (invariants by induction over arbitrary step-oracle trace
 
 def run(rep, tier, seed, scratch):
     g = Gen(seed)
+    common.facts_obligations(rep, 'C09', scratch)
     u = Loop()
     run_unit(rep, u, u.gen(g, tier), scratch)
     camp_props.run_C09(rep, tier, seed)
